@@ -71,7 +71,7 @@ def make_layout(rng, max_fields):
 def make_extras(rng):
     """Pseudo-fields and sentinels of the dataclass machinery: ClassVar (no field), InitVar with a default (no field, passed to
     __post_init__), the KW_ONLY sentinel followed by one more ordinary field."""
-    return dict(classvar=rng.random() < 0.3, initvar=rng.random() < 0.3, kw_sentinel=rng.random() < 0.3)
+    return dict(classvar=rng.random() < 0.3, initvar=rng.random() < 0.3, kw_sentinel=rng.random() < 0.3, shared_metadata=({'unit': 'm', 7: None} if rng.random() < 0.4 else None))
 
 
 def order_fields(fields, flags):
@@ -105,6 +105,8 @@ def build_namespace(fields, use_optree_field, extras=None):
         if f['how'] == 'optree' and use_optree_field:
             if f['pytree_node'] is not None:
                 kw['pytree_node'] = f['pytree_node']
+            if extras and extras.get('shared_metadata') is not None:
+                kw['metadata'] = extras['shared_metadata']  # ONE user dict handed to every optree field() call of the layout
             try:
                 attrs[f['name']] = optree.dataclasses.field(**kw)
             except TypeError as e:
@@ -178,6 +180,10 @@ def dataclass_case(sink, seed, idx, max_fields):  # noqa: C901
             else:
                 fields = fields + [dict(name='b0', default='value', init=True, pytree_node=False, kw_only=True, how=rng.choice(['optree', 'plain']))]
     ann, attrs, field_err = build_namespace(fields, True, extras)
+    if extras['shared_metadata'] is not None:
+        sink.check(extras['shared_metadata'] == {'unit': 'm', 7: None}, 'field/user-metadata-mutated', 'optree.dataclasses.field does not write into the metadata dict of the caller (every field keeps its own pytree_node flag)', ident,
+                   repr(extras['shared_metadata']))
+        sink.count('layouts-with-shared-metadata')
     expect_reject = any(effective_node(f) and not f['init'] for f in fields)
     if field_err is not None:
         sink.check(expect_reject, 'field/spurious-rejection', 'optree.dataclasses.field rejects only pytree_node=True with init=False', ident, repr(field_err))
@@ -451,6 +457,7 @@ def run_shard(sink, tier, seed, shard):
 
 def finalize(sink, tier, seed):
     sink.require('dataclasses', 500)
+    sink.require('layouts-with-shared-metadata', 100)
     for k in ('optree', 'plain', 'optree-redeclare', 'two-optree'):
         sink.require(f'inheritance:{k}', 30)
     sink.require('dataclass-observations', 500)
